@@ -1,2 +1,260 @@
-/-! stub: replaced by the Cont group driver -/
-def main : IO Unit := pure ()
+import MesaModel.Model.Cont
+/-!
+Line-protocol driver for the continuous-space models (C10, C18-cont).
+One output line per input line.  Coordinates and radii are ints in units of 1/64,
+squared distances ints in units of 1/4096.  See harness/cont_common.py for the producer.
+
+  (S = how the harness passes coordinates to the implementation; no meaning for the model:
+   legacy f = float tuples, i = ints where integral, a = numpy arrays; exp a = arrays, l = lists)
+  scenario legacy S T xmin xmax ymin ymax        (T = 0|1 torus)
+    place a x y | move a x y | remove a | pos a | agents
+    nbrs x y r incl | dist x1 y1 x2 y2 | heading x1 y1 x2 y2 | oob x y | adj x y
+  scenario exp S T cap lo hi lo hi [lo hi]
+    new a | set a x y [z] | get a | remove a | agents
+    radius x y [z] r | knn x y [z] k | nir a r | nn a k
+    dists x y [z] [: a b …] | diffs x y [z] [: a b …] | inb x y [z] | correct x y [z]
+-/
+open Mesa.Cont
+
+def words (s : String) : List String := (s.splitOn " ").filter (· ≠ "")
+
+def ints (ws : List String) : Option (List Int) := ws.mapM String.toInt?
+def nats (ws : List String) : Option (List Nat) := ws.mapM String.toNat?
+
+def commas (xs : List String) : String := ",".intercalate xs
+
+def fmtErr : Err → String
+  | .oob => "err OutOfBounds"
+  | .notIn => "err NotInSpace"
+  | .key => "err Key"
+  | .index => "err Index"
+  | .value => "err Value"
+  | .type => "err Type"
+
+def sortNat (l : List Nat) : List Nat := l.mergeSort (fun a b => decide (a ≤ b))
+
+def fmtPos (p : List Int) : String := commas (p.map toString)
+
+/-- pairs sorted by agent id -/
+def fmtPairs (l : List (Aid × Int)) : String :=
+  commas ((l.mergeSort (fun a b => decide (a.1 ≤ b.1))).map fun ad => s!"{ad.1}:{ad.2}")
+
+def fmtVecs (l : List (Aid × Pos)) : String :=
+  commas (l.map fun av => s!"{av.1}:" ++ ";".intercalate (av.2.map toString))
+
+/-- canonical form of a k-nearest answer: (d2, agent) sorted; agents at the largest returned
+    distance are anonymous (`*`) if an agent at that same distance was left out (`all` = all distances) -/
+def knnCanon (all : List Int) (res : List (Aid × Int)) : Bool × List (Int × Option Aid) :=
+  match res.map (·.2) |>.max? with
+  | none => (false, [])
+  | some m =>
+    let tie := (res.filter (·.2 = m)).length < (all.filter (· = m)).length
+    (tie, res.map fun ad => (ad.2, if tie && ad.2 = m then none else some ad.1))
+
+def fmtKnn (l : List (Int × Option Aid)) : String :=
+  let key : Int × Option Aid → Int × Nat := fun x => (x.1, match x.2 with | none => 0 | some a => a + 1)
+  let sorted := l.mergeSort (fun a b => decide ((key a).1 < (key b).1 ∨ ((key a).1 = (key b).1 ∧ (key a).2 ≤ (key b).2)))
+  commas (sorted.map fun x => s!"{x.1}:" ++ (match x.2 with | none => "*" | some a => toString a))
+
+inductive St where
+  | none
+  | leg (s : LSpace)
+  | exp (s : ESpace) (nd : Nat)
+
+def splitColon (ws : List String) : List String × Option (List String) :=
+  match ws.span (· ≠ ":") with
+  | (a, []) => (a, none)
+  | (a, _ :: b) => (a, some b)
+
+def stepLeg (s : LSpace) (ws : List String) : LSpace × String :=
+  match ws with
+  | ["place", a, x, y] =>
+    match a.toNat?, x.toInt?, y.toInt? with
+    | some a, some x, some y =>
+      match place s a (x, y) with
+      | .ok s' => (s', "ok")
+      | .error e => (s, fmtErr e)
+    | _, _, _ => (s, "bad-op")
+  | ["move", a, x, y] =>
+    match a.toNat?, x.toInt?, y.toInt? with
+    | some a, some x, some y =>
+      match move s a (x, y) with
+      | (s', .ok _) => (s', "ok")
+      | (s', .error e) => (s', fmtErr e)
+    | _, _, _ => (s, "bad-op")
+  | ["remove", a] =>
+    match a.toNat? with
+    | some a =>
+      match remove s a with
+      | .ok s' => (s', "ok")
+      | .error e => (s, fmtErr e)
+    | none => (s, "bad-op")
+  | ["pos", a] =>
+    match a.toNat? with
+    | some a => (s, match s.pos a with | none => "ok pos=None" | some p => s!"ok pos={p.1},{p.2}")
+    | none => (s, "bad-op")
+  | ["agents"] => (s, "ok agents=" ++ commas ((sortNat s.agents).map toString))
+  | ["nbrs", x, y, r, incl] =>
+    match x.toInt?, y.toInt?, r.toInt?, incl.toNat? with
+    | some x, some y, some r, some i =>
+      if i > 1 then (s, "bad-op") else
+      match getNeighbors s (x, y) r (i == 1) with
+      | (s', .ok l) => (s', "ok nbrs=" ++ commas ((sortNat l).map toString))
+      | (s', .error e) => (s', fmtErr e)
+    | _, _, _, _ => (s, "bad-op")
+  | ["dist", x1, y1, x2, y2] =>
+    match ints [x1, y1, x2, y2] with
+    | some [x1, y1, x2, y2] => (s, s!"ok d2={ldist2 s.cfg (x1, y1) (x2, y2)}")
+    | _ => (s, "bad-op")
+  | ["heading", x1, y1, x2, y2] =>
+    match ints [x1, y1, x2, y2] with
+    | some [x1, y1, x2, y2] => let h := lheading s.cfg (x1, y1) (x2, y2); (s, s!"ok h={h.1},{h.2}")
+    | _ => (s, "bad-op")
+  | ["oob", x, y] =>
+    match x.toInt?, y.toInt? with
+    | some x, some y => (s, if oob s.cfg (x, y) then "ok 1" else "ok 0")
+    | _, _ => (s, "bad-op")
+  | ["adj", x, y] =>
+    match x.toInt?, y.toInt? with
+    | some x, some y =>
+      match torusAdj s.cfg (x, y) with
+      | .ok p => (s, s!"ok pos={p.1},{p.2}")
+      | .error e => (s, fmtErr e)
+    | _, _ => (s, "bad-op")
+  | _ => (s, "bad-op")
+
+def fmtRes (r : Except Err (List (Aid × Int))) : String :=
+  match r with
+  | .ok l => "ok res=" ++ fmtPairs l
+  | .error e => fmtErr e
+
+def stepExp (s : ESpace) (nd : Nat) (ws : List String) : ESpace × String :=
+  let bad := (s, "bad-op")
+  match ws with
+  | ["new", a] =>
+    match a.toNat? with
+    | some a => if (s.a2i a).isSome then bad else (estep s (.new a), "ok")
+    | none => bad
+  | "set" :: a :: xs =>
+    match a.toNat?, ints xs with
+    | some a, some p =>
+      if p.length ≠ nd then bad else
+      match setPos s a p with
+      | .ok s' => (s', "ok")
+      | .error e => (s, fmtErr e)
+    | _, _ => bad
+  | ["get", a] =>
+    match a.toNat? with
+    | some a => (s, match getPos s a with | .ok p => "ok pos=" ++ fmtPos p | .error e => fmtErr e)
+    | none => bad
+  | ["remove", a] =>
+    match a.toNat? with
+    | some a =>
+      match removeAgent s a with
+      | .ok s' => (s', "ok")
+      | .error e => (s, fmtErr e)
+    | none => bad
+  | ["agents"] => (s, "ok agents=" ++ commas ((sortNat s.active).map toString))
+  | "radius" :: xs =>
+    match ints xs with
+    | some v =>
+      if v.length ≠ nd + 1 then bad else
+      (s, "ok res=" ++ fmtPairs (agentsInRadius s (v.take nd) (v.getD nd 0)))
+    | none => bad
+  | "knn" :: xs =>
+    match ints (xs.take nd), (xs.drop nd).mapM String.toNat? with
+    | some pt, some [k] =>
+      if pt.length ≠ nd then bad else
+      match kNearest argsortPart s pt k with
+      | .ok l => (s, "ok res=" ++ fmtKnn (knnCanon (calcD2 s pt) l).2)
+      | .error e => (s, fmtErr e)
+    | _, _ => bad
+  | ["nir", a, r] =>
+    match a.toNat?, r.toInt? with
+    | some a, some r => (s, fmtRes (neighborsInRadius s a r))
+    | _, _ => bad
+  | ["nn", a, k] =>
+    match a.toNat?, k.toNat? with
+    | some a, some k =>
+      match getPos s a with
+      | .error e => (s, fmtErr e)
+      | .ok p =>
+        match kNearest argsortPart s p (k + 1) with
+        | .error e => (s, fmtErr e)
+        | .ok l =>
+          let (tie, can) := knnCanon (calcD2 s p) l
+          if tie && (l.map (·.2)).max? = some 0 then (s, "ok res=ambiguous")
+          else (s, "ok res=" ++ fmtKnn (can.filter fun x => x.2 ≠ some a))
+    | _, _ => bad
+  | "dists" :: rest =>
+    match splitColon rest with
+    | (xs, sub) =>
+      match ints xs, (match sub with | none => some none | some l => (nats l).map some) with
+      | some pt, some sub =>
+        if pt.length ≠ nd then bad else
+        match distancesOf s pt sub with
+        | .ok l => (s, "ok res=" ++ (match sub with
+                                     | none => fmtPairs l
+                                     | some _ => commas (l.map fun ad => s!"{ad.1}:{ad.2}")))
+        | .error e => (s, fmtErr e)
+      | _, _ => bad
+  | "diffs" :: rest =>
+    match splitColon rest with
+    | (xs, sub) =>
+      match ints xs, (match sub with | none => some none | some l => (nats l).map some) with
+      | some pt, some sub =>
+        if pt.length ≠ nd then bad else
+        match diffsOf s pt sub with
+        | .ok l => (s, "ok res=" ++ fmtVecs (match sub with
+                                             | none => l.mergeSort (fun a b => decide (a.1 ≤ b.1))
+                                             | some _ => l))
+        | .error e => (s, fmtErr e)
+      | _, _ => bad
+  | "inb" :: xs =>
+    match ints xs with
+    | some p => if p.length ≠ nd then bad else (s, if inBounds s.cfg.dims p then "ok 1" else "ok 0")
+    | none => bad
+  | "correct" :: xs =>
+    match ints xs with
+    | some p => if p.length ≠ nd then bad else (s, "ok pos=" ++ fmtPos (torusCorrect s.cfg.dims p))
+    | none => bad
+  | _ => bad
+
+def pairs : List Int → Option (List (Int × Int))
+  | [] => some []
+  | lo :: hi :: rest => if lo < hi then (pairs rest).map ((lo, hi) :: ·) else none
+  | _ => none
+
+def stepLine (st : St) (ws : List String) : St × String :=
+  match ws with
+  | "scenario" :: "legacy" :: style :: rest =>
+    match ints rest with
+    | some [t, xmin, xmax, ymin, ymax] =>
+      if style ∈ ["f", "i", "a"] ∧ (t = 0 ∨ t = 1) ∧ xmin < xmax ∧ ymin < ymax then
+        (.leg (linit { xmin, xmax, ymin, ymax, torus := t == 1 }), "ok")
+      else (st, "bad-op")
+    | _ => (st, "bad-op")
+  | "scenario" :: "exp" :: style :: t :: cap :: rest =>
+    match t.toNat?, cap.toNat?, (ints rest).bind pairs with
+    | some t, some cap, some dims =>
+      if style ∈ ["a", "l"] ∧ t ≤ 1 ∧ (dims.length = 2 ∨ dims.length = 3) then
+        (.exp (einit { dims, torus := t == 1 } cap) dims.length, "ok")
+      else (st, "bad-op")
+    | _, _, _ => (st, "bad-op")
+  | _ =>
+    match st with
+    | .none => (st, "bad-op")
+    | .leg s => let (s', o) := stepLeg s ws; (.leg s', o)
+    | .exp s nd => let (s', o) := stepExp s nd ws; (.exp s' nd, o)
+
+partial def loop (h : IO.FS.Stream) (out : IO.FS.Stream) (st : St) : IO Unit := do
+  let line ← h.getLine
+  if line.isEmpty then return ()
+  let (st', o) := stepLine st (words line.trimAscii.toString)
+  out.putStrLn o
+  loop h out st'
+
+def main : IO Unit := do
+  let out ← IO.getStdout
+  loop (← IO.getStdin) out .none
+  out.flush
